@@ -4,7 +4,8 @@
     three places where val.rs iterates a HashMap — Display, join and equality — compute something
     that does not depend on the arrangement of the entries; everywhere else tables are accessed by key. *)
 From Coq Require Import List ZArith NArith Bool Sorting.Permutation.
-From RRSS Require Import Base.Outcome Base.Chars Base.F64 Exec.Val Proofs.OrderLaws.
+From RRSS Require Import Base.Outcome Base.Chars Base.F64 Exec.Val Proofs.OrderLaws Proofs.InterpWf.
+From RRSS Require Import Front.Ast Exec.Env Exec.Interp.
 Import ListNotations.
 
 (** printing: the rendered text is the same for every arrangement of the dictionary ... *)
@@ -43,6 +44,19 @@ Theorem C10_sorted_strings_order_independent :
   forall l1 l2, Permutation l1 l2 -> isort str_compare l1 = isort str_compare l2.
 Proof. exact sorted_strings_order_independent. Qed.
 
+(** the distinct-keys side condition above holds for every array a run computes (Proofs/InterpWf.v):
+    whatever arrangement the table of such an array has, joining, iterating, comparing, looking up
+    and printing it give the same thing *)
+Theorem C10_runtime_array_order_independent :
+  forall prof f x e a d e1 d',
+  wf_env e -> produce_expr prof f x e = XOk (VArr a d) e1 -> Permutation d d' ->
+  (forall delim, v_join (VArr a d) delim = v_join (VArr a d') delim) /\
+  val_iter a d = val_iter a d' /\
+  (forall xa xd, val_eq (VArr xa xd) (VArr a d) = val_eq (VArr xa xd) (VArr a d')) /\
+  (forall k, dict_get k d = dict_get k d') /\
+  v_display (VArr a d) = v_display (VArr a d').
+Proof. exact runtime_array_order_independent. Qed.
+
 Example C10_example :
   let d1 := [(KStr (lit "z"), VStr (lit "1")); (KStr (lit "m"), VStr (lit "2")); (KNull, VStr (lit "3"))] in
   let d2 := [(KNull, VStr (lit "3")); (KStr (lit "z"), VStr (lit "1")); (KStr (lit "m"), VStr (lit "2"))] in
@@ -51,3 +65,4 @@ Example C10_example :
 Proof. vm_compute. repeat split; reflexivity. Qed.
 
 Print Assumptions C10_join_order_independent.
+Print Assumptions C10_runtime_array_order_independent.
